@@ -105,6 +105,7 @@ class Tokenizer:
         self._depth = 0
         self._bad_routes = set()
         self._skip_style_tags = False
+        self._unterminated_comment = None
 
     @property
     def _stack(self):
@@ -701,11 +702,21 @@ class Tokenizer:
         """Parse an HTML comment at the head of the wikicode string."""
         self._head += 4
         reset = self._head - 1
+        if (
+            self._unterminated_comment is not None
+            and self._head >= self._unterminated_comment
+        ):
+            # An earlier scan from here or before found no end of comment:
+            self._head = reset
+            self._emit_text("<!--")
+            return
+        start = self._head
         self._push(check_route=False)
         while True:
             this = self._read()
             if this == self.END:
                 self._pop()
+                self._unterminated_comment = start
                 self._head = reset
                 self._emit_text("<!--")
                 return
@@ -1565,6 +1576,7 @@ class Tokenizer:
         self._stacks = []
         self._bad_routes = set()
         self._skip_style_tags = skip_style_tags
+        self._unterminated_comment = None
 
         try:
             result = self._parse(context)
